@@ -8,6 +8,7 @@ import (
 	"fmt"
 	"go/token"
 	"go/types"
+	"strings"
 
 	"golang.org/x/tools/go/ssa"
 )
@@ -248,4 +249,277 @@ func ruleFindLazy(c *Ctx) []Obligation {
 func isBoolType(t types.Type) bool {
 	b, ok := t.Underlying().(*types.Basic)
 	return ok && b.Kind() == types.Bool
+}
+
+func init() {
+	register(&Rule{Name: "CMP.ANTISYM", Props: []string{"C05", "C04"}, Floor: 4,
+		Doc: "a comparator that decides one direction of a strict comparison with a constant result decides the mirrored comparison with the opposite result; a three-way comparator answers 0 only when neither holds",
+		Run: ruleCmpAntisym})
+}
+
+// comparatorFns: Less methods of sort.Interface implementations, and functions of two same-typed parameters whose every
+// result is an integer constant (three-way comparators), in the library packages.
+func (c *Ctx) comparatorFns() []*ssa.Function {
+	var out []*ssa.Function
+	for _, fn := range c.Funcs {
+		if fn.Blocks == nil || !c.isRepoFn(fn) || fn.Signature.Results().Len() != 1 {
+			continue
+		}
+		if root := rootFn(fn); root.Pkg == nil || shortPkg(root.Pkg.Pkg.Path()) == "main" {
+			continue
+		}
+		res := fn.Signature.Results().At(0).Type()
+		switch {
+		case fn.Signature.Recv() != nil && baseName(fn) == "Less" && isBoolType(res):
+			out = append(out, fn)
+		case fn.Signature.Recv() == nil && fn.Signature.Params().Len() == 2 && types.Identical(fn.Signature.Params().At(0).Type(), fn.Signature.Params().At(1).Type()):
+			if b, isB := res.Underlying().(*types.Basic); isB && b.Kind() == types.Int {
+				allConst := true
+				eachInstr(fn, func(in ssa.Instruction) {
+					if r, isR := in.(*ssa.Return); isR {
+						if _, isK := r.Results[0].(*ssa.Const); !isK {
+							allConst = false
+						}
+					}
+				})
+				if allConst {
+					out = append(out, fn)
+				}
+			}
+		}
+	}
+	return out
+}
+
+func ruleCmpAntisym(c *Ctx) []Obligation {
+	const R = "CMP.ANTISYM"
+	var obs []Obligation
+	type decided struct {
+		ret  *ssa.Return
+		k    string // constant returned
+		op   token.Token
+		x, y ssa.Value
+	}
+	sameOperand := func(a, b ssa.Value) bool {
+		if a == b {
+			return true
+		}
+		ka, ok1 := a.(*ssa.Const)
+		kb, ok2 := b.(*ssa.Const)
+		if ok1 && ok2 {
+			return ka.Value != nil && kb.Value != nil && ka.Value.ExactString() == kb.Value.ExactString()
+		}
+		// loads of the same element / field
+		ua, ok1 := a.(*ssa.UnOp)
+		ub, ok2 := b.(*ssa.UnOp)
+		if ok1 && ok2 && ua.Op == token.MUL && ub.Op == token.MUL {
+			ia, ok1 := ua.X.(*ssa.IndexAddr)
+			ib, ok2 := ub.X.(*ssa.IndexAddr)
+			if ok1 && ok2 {
+				if ia.X != ib.X {
+					return false
+				}
+				if ia.Index == ib.Index {
+					return true
+				}
+				k1, okk1 := constInt(ia.Index)
+				k2, okk2 := constInt(ib.Index)
+				return okk1 && okk2 && k1 == k2
+			}
+			pa := AccessPath(a)
+			return pa != "" && pa == AccessPath(b) && !strings.HasPrefix(pa, "t")
+		}
+		return false
+	}
+	for _, fn := range c.comparatorFns() {
+		isInt := !isBoolType(fn.Signature.Results().At(0).Type())
+		var ds []decided
+		var plain []*ssa.Return // constant returns not directly under a strict comparison
+		for _, b := range fn.Blocks {
+			r, isR := b.Instrs[len(b.Instrs)-1].(*ssa.Return)
+			if !isR {
+				continue
+			}
+			k, isK := r.Results[0].(*ssa.Const)
+			if !isK || k.Value == nil {
+				continue
+			}
+			found := false
+			for _, g := range guardsAt(b) {
+				idx := 1
+				if g.Branch {
+					idx = 0
+				}
+				if g.If.Block().Succs[idx] != b {
+					continue
+				}
+				bo, isB := g.Cond.(*ssa.BinOp)
+				if !isB {
+					continue
+				}
+				op := bo.Op
+				if !g.Branch {
+					op = map[token.Token]token.Token{token.LSS: token.GEQ, token.GTR: token.LEQ, token.LEQ: token.GTR, token.GEQ: token.LSS, token.EQL: token.NEQ, token.NEQ: token.EQL}[op]
+				}
+				switch op {
+				case token.LSS, token.GTR:
+					ds = append(ds, decided{r, k.Value.ExactString(), op, bo.X, bo.Y})
+					found = true
+				case token.EQL:
+					// switch on a three-way result: `case -1: … case 1: …`
+					if kk, okk := constInt(bo.Y); okk && kk != 0 {
+						ds = append(ds, decided{r, k.Value.ExactString(), token.EQL, bo.X, bo.Y})
+						found = true
+					}
+				}
+			}
+			if !found {
+				plain = append(plain, r)
+			}
+		}
+		if len(ds) == 0 {
+			continue
+		}
+		opposite := func(k string) string {
+			switch k {
+			case "true":
+				return "false"
+			case "false":
+				return "true"
+			}
+			if strings.HasPrefix(k, "-") {
+				return k[1:]
+			}
+			return "-" + k
+		}
+		for i, d := range ds {
+			con := fmt.Sprintf("%s: decision #%d has its mirror image", c.FnName(fn), i+1)
+			mirrored, clash := false, ""
+			for j, e := range ds {
+				if i == j {
+					continue
+				}
+				var mirror, same bool
+				switch {
+				case d.op == token.EQL && e.op == token.EQL:
+					k1, _ := constInt(d.y)
+					k2, _ := constInt(e.y)
+					mirror = sameOperand(d.x, e.x) && k1 == -k2
+					same = sameOperand(d.x, e.x) && k1 == k2
+				case d.op != token.EQL && e.op != token.EQL:
+					mirror = (d.op != e.op && sameOperand(d.x, e.x) && sameOperand(d.y, e.y)) || (d.op == e.op && sameOperand(d.x, e.y) && sameOperand(d.y, e.x))
+					same = (d.op == e.op && sameOperand(d.x, e.x) && sameOperand(d.y, e.y)) || (d.op != e.op && sameOperand(d.x, e.y) && sameOperand(d.y, e.x))
+				}
+				if mirror && e.k == opposite(d.k) {
+					mirrored = true
+				}
+				if same && e.k != d.k {
+					clash = c.InstrPos(e.ret)
+				}
+			}
+			switch {
+			case clash != "":
+				obs = append(obs, bad(R, con, c.InstrPos(d.ret), "the same comparison is decided a second time with a different result at "+clash+": one of the two is dead code, and the mirrored direction is not decided at all"))
+			case mirrored:
+				obs = append(obs, ok(R, con, c.InstrPos(d.ret), fmt.Sprintf("%s ↔ %s", d.k, opposite(d.k))))
+			default:
+				obs = append(obs, bad(R, con, c.InstrPos(d.ret), fmt.Sprintf("the comparison answers %s in one direction, but the mirrored comparison does not answer %s: less(a,b) and less(b,a) can both hold (or neither, with later fields deciding differently), so the sorted order depends on the input order", d.k, opposite(d.k))))
+			}
+		}
+		if isInt {
+			for i, r := range plain {
+				con := fmt.Sprintf("%s: fall-through answer #%d is `equal`", c.FnName(fn), i+1)
+				if k, _ := constInt(r.Results[0]); k == 0 {
+					obs = append(obs, ok(R, con, c.InstrPos(r), "0"))
+				} else {
+					obs = append(obs, bad(R, con, c.InstrPos(r), "a three-way comparator answers non-zero where neither operand was found smaller: equal keys are reported as ordered, so the caller stops comparing at this field"))
+				}
+			}
+			for _, d := range ds {
+				if d.k != "-1" && d.k != "1" {
+					obs = append(obs, bad(R, fmt.Sprintf("%s: answers are -1, 0 or 1", c.FnName(fn)), c.InstrPos(d.ret), "answer "+d.k+": callers switch on -1 and 1"))
+				}
+			}
+		}
+	}
+	return obs
+}
+
+func init() {
+	register(&Rule{Name: "INDEX.SENTINEL", Props: []string{"C02"}, Floor: 1,
+		Doc: "in the lexer, the result of a substring search is tested against the not-found sentinel only (found at offset 0 is found)",
+		Run: ruleIndexSentinel})
+}
+
+func ruleIndexSentinel(c *Ctx) []Obligation {
+	const R = "INDEX.SENTINEL"
+	lx := c.Named("yang", "lexer")
+	if lx == nil {
+		return []Obligation{undecided(R, "lexer type", "-", "type yang.lexer not found")}
+	}
+	takesLexer := func(fn *ssa.Function) bool {
+		for _, p := range fn.Params {
+			if pt, isP := p.Type().(*types.Pointer); isP && namedOf(pt.Elem()) == lx {
+				return true
+			}
+		}
+		return false
+	}
+	var obs []Obligation
+	n := 0
+	for _, fn := range c.Funcs {
+		if fn.Blocks == nil || !takesLexer(rootFn(fn)) {
+			continue
+		}
+		seen := 0
+		eachInstr(fn, func(in ssa.Instruction) {
+			call, isC := in.(*ssa.Call)
+			if !isC {
+				return
+			}
+			cal := call.Call.StaticCallee()
+			if cal == nil || cal.Pkg == nil || cal.Pkg.Pkg.Path() != "strings" || !strings.Contains(cal.Name(), "Index") {
+				return
+			}
+			for _, r := range *call.Referrers() {
+				bo, isB := r.(*ssa.BinOp)
+				if !isB {
+					continue
+				}
+				switch bo.Op {
+				case token.LSS, token.GTR, token.LEQ, token.GEQ, token.EQL, token.NEQ:
+				default:
+					continue // arithmetic on the offset (s[i+1:]) is not a found-test
+				}
+				var k int64
+				var okk bool
+				op := bo.Op
+				if bo.X == ssa.Value(call) {
+					k, okk = constInt(bo.Y)
+				} else {
+					k, okk = constInt(bo.X)
+					op = map[token.Token]token.Token{token.LSS: token.GTR, token.GTR: token.LSS, token.LEQ: token.GEQ, token.GEQ: token.LEQ, token.EQL: token.EQL, token.NEQ: token.NEQ}[op]
+				}
+				if !okk {
+					continue
+				}
+				n++
+				seen++
+				con := fmt.Sprintf("%s: search result test #%d separates found from not found", c.FnName(fn), seen)
+				// the tests that split exactly {-1} from {0, 1, …}
+				exact := op == token.GEQ && k == 0 || op == token.LSS && k == 0 || op == token.GTR && k == -1 || op == token.LEQ && k == -1 || (op == token.EQL || op == token.NEQ) && k == -1
+				if exact {
+					obs = append(obs, ok(R, con, c.InstrPos(bo), fmt.Sprintf("%s %s %d", cal.Name(), op, k)))
+				} else {
+					obs = append(obs, bad(R, con, c.InstrPos(bo), fmt.Sprintf("the result of strings.%s is tested with `%s %d`: a match at the very start of the remaining input (offset 0) is treated like no match, e.g. the empty comment /**/ becomes unterminated", cal.Name(), op, k)))
+				}
+			}
+		})
+	}
+	if n == 0 {
+		o := ok(R, "no substring search in the lexer is tested against a constant", "-", "nothing to decide")
+		o.Trivial = true
+		obs = append(obs, o)
+	}
+	return obs
 }
